@@ -31,7 +31,7 @@ func runC20(o *Out, rng *RNG, tier string, replay string) {
 	o.ShardSize = 500
 	o.Rule = "inputs: (1) nested string maps (depth <= 4, 15% up to 8, overlapping key pool; ~15% malformed: dotted / empty keys, empty sub-maps) -> " +
 		"RecursiveMapToPlainMap -> StringMapToRecursiveMap / ToRecursiveMap, and flat maps with dotted keys (prefix-free, ~20% with a " +
-		"path-prefix conflict or the empty key) -> unflatten -> flatten; (2) flat string maps -> PlainStringMapToJSON / FormattedJSON -> " +
+		"path-prefix conflict or the empty key) -> unflatten -> flatten; (2) flat string maps (keys with empty segments included: leading '.b', inner 'a..c', trailing 'a.', the empty key) -> PlainStringMapToJSON / FormattedJSON -> " +
 		"JSONToPlainStringMap, values exhaustive over {\",\\,LF,TAB,0x01,e-acute,a,/,u,0xFF} up to the tier's length plus random byte strings " +
 		"up to 200 bytes; (3) generated JSON documents of the subset (all character forms, whitespace everywhere, arrays, literals, numbers, " +
 		"duplicates, dotted and empty keys, raw control / invalid UTF-8 bytes) and a malformed stream (lone surrogates, bad escapes, truncation, " +
@@ -152,6 +152,22 @@ func runC20(o *Out, rng *RNG, tier string, replay string) {
 			}
 		}
 		return string(b)
+	}
+
+	// ================= (0) known finding K-C20, exercised on every run: a nested map with the empty
+	// string as a top-level key flattens to {"": v}, which the rebuild functions reject
+	for _, variant := range []string{"S", "I"} {
+		tree := map[string]interface{}{"": "x"}
+		fkind, flat := addFlat(tree, "probe")
+		ukind, back := addUnflat(flat, variant, "probe")
+		if fkind != "ok" || ukind != "ok" || canonTree(back) != canonTree(tree) {
+			o.Stat("probe_empty_top_level_key_fails")
+			o.Fail("flatten_unflatten", fmt.Sprintf("variant %s: flatten {\"\":\"x\"} = %v (kind=%s), rebuild kind=%s: flatten and rebuild are not inverse for an empty top-level key",
+				variant, c20Pairs(flat), fkind, ukind), "K-C20-empty-top-level-key",
+				map[string]interface{}{"op": "flatten_unflatten", "variant": variant, "tree": c20TreeDesc(tree), "flat": c20Pairs(flat), "kind": ukind})
+		} else {
+			o.Stat("probe_empty_top_level_key_holds")
+		}
 	}
 
 	// ================= (1) nested maps
@@ -295,7 +311,7 @@ func runC20(o *Out, rng *RNG, tier string, replay string) {
 	}
 
 	// ================= (2) flat string maps -> JSON text -> map
-	emitSegs := []string{"a", "b", "c", "k1", "é", "x y", "q\"", "b\\"}
+	emitSegs := []string{"a", "b", "c", "k1", "é", "x y", "q\"", "b\\", "a", "b", ""} // "" gives leading ".b", inner "a..c", trailing "a."
 	genEmitKey := func() string {
 		n := 1 + rng.Intn(3)
 		p := make([]string, n)
@@ -313,10 +329,10 @@ func runC20(o *Out, rng *RNG, tier string, replay string) {
 	}
 	doEmitMap := func(m map[string]string, stream string) {
 		keys := c20SortedKeys(m)
-		firstEmpty, validUTF := false, true
+		validUTF := true
 		for _, k := range keys {
-			if k == "" || k[0] == '.' {
-				firstEmpty = true
+			if k == "" || k[0] == '.' || strings.Contains(k, "..") || strings.HasSuffix(k, ".") {
+				o.Stat("emit_key_empty_segment")
 			}
 			if !utf8.ValidString(k) || !utf8.ValidString(m[k]) {
 				validUTF = false
@@ -348,7 +364,7 @@ func runC20(o *Out, rng *RNG, tier string, replay string) {
 				continue
 			}
 			rkind, back := addRead([]byte(text), "emitted")
-			if !firstEmpty && (rkind != "ok" || !c20MapsEqual(back, m)) {
+			if rkind != "ok" || !c20MapsEqual(back, m) {
 				d := map[string]interface{}{"op": "write_read", "variant": variant, "map": c20Pairs(m), "text": c20q(text), "kind": rkind, "read_back": c20Pairs(back)}
 				o.Fail("write_read", fmt.Sprintf("%s: read(emit m) != m: kind=%s read back %v", variant, rkind, c20Pairs(back)), "write_read", d)
 			}
@@ -481,8 +497,8 @@ func runC20(o *Out, rng *RNG, tier string, replay string) {
 			switch {
 			case err != nil:
 				o.Fail("read_leaf", fmt.Sprintf("encoding/json rejects the generated document %s: %v", c20q(string(doc)), err), "read_leaf_generator", desc)
-			case dup || empty:
-				o.Stat("doc_valid_l2_skipped_dup_or_emptykey")
+			case dup:
+				o.Stat("doc_valid_l2_skipped_dup")
 				if rkind != "ok" {
 					o.Fail("read_leaf", "a document of the subset was rejected: "+rkind, "read_leaf", desc)
 				}
@@ -490,6 +506,9 @@ func runC20(o *Out, rng *RNG, tier string, replay string) {
 				o.Fail("read_leaf", fmt.Sprintf("document %s: got kind=%s %v, encoding/json leaves %v", c20q(string(doc)), rkind, c20Pairs(got), c20Pairs(ref)), "read_leaf", desc)
 			default:
 				o.Stat("doc_valid_l2_compared")
+				if empty {
+					o.Stat("doc_valid_l2_compared_with_empty_name")
+				}
 				if len(ref) > 0 {
 					o.Stat("doc_valid_with_leaves")
 				}
